@@ -1,4 +1,5 @@
 CONSTANT TransposeCapped = TRUE
+CONSTANT TransposeMinBatchCells = 0
 INIT Init
 NEXT Next
 INVARIANT InvLocalLookup
